@@ -705,6 +705,15 @@ func vfDiscCorpus() []*vfDiscCase {
 	g := vfDiscOp{O: "serve", Path: "gated", PatienceMs: 3000}
 	x := vfDiscOp{O: "serve", Path: "excluded", PatienceMs: 3000}
 	return []*vfDiscCase{
+		// a 200 answer that is valid JSON without an issuer: "initialised" but closed until a tick brings a real document
+		{Kind: "empty-doc", TimeoutMs: vfDiscTimeoutMs, Script: []string{"empty"}, Healthy: "doc1", Pre: vfDiscStdPre(0),
+			Ops: []vfDiscOp{g, x, {O: "serve", Path: "callback", PatienceMs: 3000}, {O: "shift", Min: 61}, {O: "refresh"}, g, x}},
+		// a document with an issuer but no authorization endpoint
+		{Kind: "partial-doc", TimeoutMs: vfDiscTimeoutMs, Script: []string{"partial"}, Healthy: "doc1", Pre: vfDiscStdPre(0),
+			Ops: []vfDiscOp{g, x, {O: "shift", Min: 61}, {O: "refresh"}, g}},
+		// first document differs from the later one
+		{Kind: "two-docs", TimeoutMs: vfDiscTimeoutMs, Script: []string{"e503", "doc2"}, Healthy: "doc1", Pre: vfDiscStdPre(1),
+			Ops: append(vfDiscServe3(), vfDiscOp{O: "shift", Min: 59}, vfDiscOp{O: "refresh"}, g, vfDiscOp{O: "shift", Min: 2}, vfDiscOp{O: "refresh"}, g)},
 		// one full retry budget of failures, then healthy (F13): initializeMetadata called synchronously ...
 		{Kind: "budget-direct", Direct: true, TimeoutMs: vfDiscTimeoutMs, Script: vfDiscRep("e500", vfDiscBudget), Healthy: "doc1"},
 		// ... and through New(), with requests all along
@@ -718,15 +727,6 @@ func vfDiscCorpus() []*vfDiscCase {
 		{Kind: "cleanup-fail", TimeoutMs: vfDiscTimeoutMs, Script: nil, Healthy: "doc1", Pre: vfDiscStdPre(0),
 			Ops: []vfDiscOp{g, {O: "shift", Min: 61}, {O: "cleanup"}, {O: "script", Answers: vfDiscRep("e503", vfDiscBudget), Healthy: "doc2"},
 				{O: "refresh"}, g, {O: "refresh"}, g}},
-		// a 200 answer that is valid JSON without an issuer: "initialised" but closed until a tick brings a real document
-		{Kind: "empty-doc", TimeoutMs: vfDiscTimeoutMs, Script: []string{"empty"}, Healthy: "doc1", Pre: vfDiscStdPre(0),
-			Ops: []vfDiscOp{g, x, {O: "serve", Path: "callback", PatienceMs: 3000}, {O: "shift", Min: 61}, {O: "refresh"}, g, x}},
-		// a document with an issuer but no authorization endpoint
-		{Kind: "partial-doc", TimeoutMs: vfDiscTimeoutMs, Script: []string{"partial"}, Healthy: "doc1", Pre: vfDiscStdPre(0),
-			Ops: []vfDiscOp{g, x, {O: "shift", Min: 61}, {O: "refresh"}, g}},
-		// first document differs from the later one
-		{Kind: "two-docs", TimeoutMs: vfDiscTimeoutMs, Script: []string{"e503", "doc2"}, Healthy: "doc1", Pre: vfDiscStdPre(1),
-			Ops: append(vfDiscServe3(), vfDiscOp{O: "shift", Min: 59}, vfDiscOp{O: "refresh"}, g, vfDiscOp{O: "shift", Min: 2}, vfDiscOp{O: "refresh"}, g)},
 	}
 }
 
